@@ -70,6 +70,9 @@ package kmip
 //@   requires pl != nil
 //@   ensures r0 == pl.opType
 //@   pure
+//@ spec knownObjectType(t ObjectType) bool = mapok(objectTypes, t)
+
 //@ func NewObjectForType
 //@   ensures !mapok(objectTypes, objType) ==> r0 == nil && r1 != nil
+//@   ensures knownObjectType(objType) ==> r1 == nil
 //@   pure
